@@ -57,6 +57,7 @@ P = {
  "C14": ("proof", "4.C14", "Coq proof that every kernel back end computes the same function (the assembly with its AVX2 path, with its SSE path, the GOAMD64=v3 preprocessing of the assembly, the no-POPCNT Go fallback, the portable and the standard-library based Go bodies all return the scalar definitions) and that the search models above the kernels do not depend on the back-end parameters; + the correspondence corpus executed under 6 configurations (8 where a second Go toolchain is installed: the same corpus built with go1.26.8, with and without AVX2) and compared case by case",
          "Proved (Properties/C14.v): C14_kernel_backends_agree — for IndexNonASCII, IndexByteString and CountString the run of the default assembly with AVX2, without AVX2, of the v3 preprocessing (proofs derived by tools/mkv3.py from the default ones and re-checked) and the Go bodies yield one value, at any placement; C14_search_models_configuration_free — the models of Index, IndexRune, IndexByte, IndexAny, LastIndexAny return the same result under every NativeIndex / cut-over / threshold setting (each refines the same Spec); C14_native_needles_within_runtime_contract / C14_index_at_the_source_constants — the largest needle Index hands to the runtime's native Index (read from the source on every run) does not exceed the least internal/bytealg.MaxLen of the toolchain (read from GOROOT on every run: 31, amd64 without AVX2), so the model's contract-checked native call never crashes and Index at the source's constants is the Spec on every supported CPU. "
          "C14_kernels_execute_no_instruction_of_an_absent_feature (X86Isa.v, X86IsaInst.v): on the machine that faults on a 256-bit VEX instruction while HasAVX2 is false and on POPCNT while HasPOPCNT is false, the translated kernels (go1.22+ and pre-1.22 files, every exported entry) run exactly as on the permissive machine, for all inputs, flags and step counts - proved by an abstract interpretation of the instruction lists whose closure sets are checked by evaluation; so the kernel theorems hold on a processor without AVX2 (C14_*_on_a_processor_without_avx2). "
+         "C14_length_products_do_not_depend_on_the_width_of_int: the only products of lengths in the code (len*2, len*3 of the length-ratio shortcuts; located and typed by the translator on every run) multiply an int64, where they are exact for every 32-bit length, and the same product in a 32-bit int is refuted with D8's input; dynamic side: the 716 MB probe in the GOARCH=386 configuration. "
          "Instruction-set probe: the harness replays 172 calls under gdb with a breakpoint on each of the 131 VEX-encoded and 21 POPCNT instructions of the kernels (library and runtime), under cpu.avx2=off and cpu.popcnt=off; an instruction reached while its feature flag is false is a violation (SIGILL on a processor without the feature). "
          "PARTIAL: the tie of those models and of the machine model to the code is the correspondence, run under every configuration: runtime AVX2, cpu.avx2=off, cpu.popcnt=off, both off, GOAMD64=v3, GOARCH=386 (portable file set, executed natively), plus the standard-library based kernels compiled on the host. "
          "Real non-x86 hardware (arm64 assembly) is out of reach; a CPU without AVX2 is approximated by cpu.avx2=off plus the instruction-set probe."),
